@@ -11,7 +11,7 @@ import (
 func init() {
 	register("C04", &propDef{
 		Title: "Every symlink left by Unpack resolves inside the destination",
-		Rules: []func(*Checker){ruleC04Guard, ruleC04Accept, rulePredSound("C04.pred"), rulePackerWriters("C04.allowlist")},
+		Rules: []func(*Checker){ruleC04Guard, ruleC04Accept, rulePredSound("C04.pred"), rulePackerWriters("C04.allowlist"), aliasRule(ruleC01Walk, "C01.walk", "C04.placement", 3)},
 		NotDecided: []string{
 			"physical resolution through other links (a lexically inside target such as l1/l1/../.. with l1 -> . resolves outside; it depends on entries created before or after) — a run-time / filesystem fact no sound static rule here decides",
 			"whether the validator distinguishes every spelling of absolute targets (string content)",
@@ -258,6 +258,11 @@ func ruleC04Accept2(id string) func(*Checker) {
 			}
 			if tgt != nil && sl[tgt] {
 				dep = true
+			}
+			// the root it is compared with must be lexically clean too (Abs/Clean/EvalSymlinks result)
+			if est.Root != nil {
+				rootClean := cleanRoot(est.Root, map[ssa.Value]bool{})
+				c.check(rootClean, id, gname, fmt.Sprintf("return true %d root is clean", i), p.Pos(r.Pos()), "the root operand is the result of filepath.Abs / Clean (plus separator)", "the cleaned target is compared with a root that is not lexically clean on every path (e.g. Abs skipped for absolute roots): '/a/./tree' or '/a//tree' make every in-tree link look external")
 			}
 			c.check(subjOK && dep, id, gname, fmt.Sprintf("return true %d", i), p.Pos(r.Pos()),
 				"guarded by a sound "+est.Kind+" containment of the cleaned target", "the containment test is applied to the raw (uncleaned) target or to a value that does not depend on the target")
@@ -597,4 +602,38 @@ func packerFieldBehind(p *Prog, v ssa.Value, pk *types.Named, seen map[ssa.Value
 		}
 	}
 	return ""
+}
+
+// cleanRoot: the containment root is a lexically cleaned path on every path
+// (looking through the appended separator and the allow-list's own joins).
+func cleanRoot(v ssa.Value, seen map[ssa.Value]bool) bool {
+	v = canon(v)
+	if seen[v] {
+		return true
+	}
+	seen[v] = true
+	switch x := v.(type) {
+	case *ssa.BinOp:
+		if x.Op == token.ADD {
+			if s, ok := constString(x.Y); ok && isSepString(s) {
+				return cleanRoot(x.X, seen)
+			}
+		}
+	case *ssa.Phi:
+		for _, e := range x.Edges {
+			if !cleanRoot(e, seen) {
+				return false
+			}
+		}
+		return true
+	case *ssa.Extract:
+		if _, ok := x.Tuple.(*ssa.Next); ok {
+			return true // an allow-list entry: absolute entries are the caller's responsibility, relative ones are joined
+		}
+	case *ssa.UnOp:
+		if _, ok := x.X.(*ssa.IndexAddr); ok {
+			return true // element of the allow-list
+		}
+	}
+	return cleanedValue(v, map[ssa.Value]bool{})
 }
